@@ -1135,7 +1135,9 @@ class StubsStringGenerator:
                             is_module=False,
                         )
 
-                    if shortest_qname:
+                    # The class is only created in the reexporting package if the path of that package is shorter than
+                    # the path of the module of the class
+                    if shortest_qname and len(shortest_qname.split(".")) < len(qname.split(".")) - 1:
                         qname = f"{shortest_qname}.{name}"
 
                     in_package = True
